@@ -105,7 +105,7 @@ var profiles = map[string]Profile{
 	// C14 invariant form under concurrency
 	"preview": {Name: "preview", MaxClients: 4, MaxOps: 4, MaxGens: 2, MaxLedgers: 1, WKind: [5]int{6, 3, 3, 3, 3},
 		Tpls:  []int{tplWorld, tplLit, tplVar, tplAll, tplSetAccountMeta},
-		IKPct: 10, RefPct: 10, DryPct: 50, IKPool: 2, RefPool: 2, TargetPool: 3, FundMax: 20, AmountMax: 6},
+		IKPct: 30, RefPct: 30, DryPct: 45, IKPool: 1, RefPool: 1, TargetPool: 2, FundMax: 20, AmountMax: 6},
 }
 
 // rawScripts: fixed texts, some valid, some not (syntax error, undeclared variable, ill-typed,
